@@ -863,7 +863,9 @@ func ctabLeafTerm(leaf *cv, t types.Type) *Term {
 	case 'n':
 		return &Term{K: TLeaf, T: t, key: "nil:" + t.String()}
 	case 'f':
-		return &Term{K: TLeaf, V: leaf.fn, T: t, key: "<fn:" + fnName(leaf.fn) + ">"}
+		ft := fnTerm(leaf.fn) // the same term as the function named directly (pxro.go)
+		ft.T = t
+		return ft
 	}
 	return nil
 }
@@ -977,11 +979,52 @@ func (w *World) ctabAt(t *Term, i int64) *cv {
 	return cur
 }
 
+// ctabInRange: the values of idx that index the array the free step of ctab(i)
+// selects from (any other index panics: the access has no value), so that a
+// wide index type (reflect.Kind is a uint) still enumerates.
+func (w *World) ctabInRange(t *Term, idx ISet) ISet {
+	ref := w.ctabRefs[t.key]
+	if ref == nil || idx == nil {
+		return idx
+	}
+	cur, ok := w.cvTable(ref.g)
+	if !ok {
+		return idx
+	}
+	k := 0
+	for _, s := range ref.steps {
+		if s.index != nil {
+			if cur.k != 'a' {
+				return idx
+			}
+			ix := ref.fixed[k]
+			k++
+			if ix < 0 {
+				if len(cur.el) == 0 {
+					return ISet{}
+				}
+				return idx.Intersect(ISet{{bi(0), bi(int64(len(cur.el) - 1))}})
+			}
+			if ix >= int64(len(cur.el)) {
+				return idx
+			}
+			cur = cur.el[ix]
+		} else {
+			if cur.k != 's' || s.field >= len(cur.el) {
+				return idx
+			}
+			cur = cur.el[s.field]
+		}
+	}
+	return idx
+}
+
 // ctabEval: the values ctab(i) takes for i in idx (nil: unknown).
 func (w *World) ctabEval(t *Term, idx ISet) ISet {
 	if idx == nil {
 		return nil
 	}
+	idx = w.ctabInRange(t, idx)
 	vals, small := idx.Elems(4096)
 	if !small {
 		return nil
@@ -1010,6 +1053,7 @@ func (w *World) ctabEval(t *Term, idx ISet) ISet {
 
 // ctabNarrow: the indices in idx whose entry lies in s.
 func (w *World) ctabNarrow(t *Term, idx, s ISet) (ISet, bool) {
+	idx = w.ctabInRange(t, idx)
 	vals, small := idx.Elems(4096)
 	if !small {
 		return nil, false
